@@ -252,11 +252,66 @@ def whole_runs(chk: core.Check, n_sets, n_variants):
                      {**rep, 'reference': {k: base['out'][k] for k in diff[:3]}, 'variant_result': {k: r['out'][k] for k in diff[:3]}})
 
 
+def _cached_sequence(texts):
+    """one default (caching) client asked for each text in turn, vs a non-caching client on the same text"""
+    import contextlib
+    import hashlib
+    import io
+    import tempfile
+    from geophires_x_client import GeophiresInputParameters, GeophiresXClient
+    logging.disable(logging.CRITICAL)
+    cached = GeophiresXClient()
+    out = []
+    for i, text in enumerate(texts):
+        row = {}
+        for tag, client in (('cached', cached), ('fresh', GeophiresXClient(enable_caching=False))):
+            f = Path(tempfile.gettempdir()) / f'seq_{uuid.uuid4().hex}.txt'
+            f.write_text(text)
+            try:
+                with geo.preserved_process_state(), contextlib.redirect_stdout(io.StringIO()), contextlib.redirect_stderr(io.StringIO()):
+                    r = client.get_geophires_result(GeophiresInputParameters(from_file_path=f))
+                d = {k: v for k, v in r.result.items() if k not in ('metadata', 'Simulation Metadata')}
+                row[tag] = hashlib.sha1(json.dumps(d, sort_keys=True, default=str).encode()).hexdigest()[:12]
+            except BaseException as e:  # noqa
+                row[tag] = 'error:' + type(e).__name__
+        out.append(row)
+    return out
+
+
+def cached_sequences(chk: core.Check, n_sets):
+    """files that differ only in layout / in the order of a duplicated parameter, requested one after another from ONE caching client"""
+    rng = chk.rng
+    jobs, meta = [], []
+    for (econ, eu, pl) in rng.sample(geo.grid(), n_sets):
+        p = geo.base_params(econ, eu, pl, L=5, n=1)
+        items = [(k, str(v)) for k, v in p.items()]
+        plain = '\n'.join(f'{a}, {b}' for a, b in items) + '\n'
+        a, alt = rng.choice([('Gradient 1', '65'), ('Utilization Factor', '0.77'), ('Production Flow Rate per Well', '33')])
+        cur = dict(items).get(a, '50' if a == 'Gradient 1' else None)
+        if cur is None:
+            continue
+        ab = plain + f'{a}, {cur}\n{a}, {alt}\n'       # alt governs
+        ba = plain + f'{a}, {alt}\n{a}, {cur}\n'       # cur governs
+        shuffled, _ = decorate(rng, items, allow_dups=False)
+        jobs.append([ab, ba, ab, shuffled + f'{a}, {alt}\n{a}, {cur}\n', plain])
+        meta.append((f'grid:{econ}/{eu}/{pl}', a, cur, alt))
+    res = geo.pmap(_cached_sequence, jobs, chk.scratch)
+    for (name, a, cur, alt), texts, rows in zip(meta, jobs, res):
+        for i, row in enumerate(rows):
+            chk.case(('cached-seq', name, i), True)
+            chk.tag('cached-seq/' + ('agree' if row.get('cached') == row.get('fresh') else 'differ'))
+            if row.get('cached') != row.get('fresh'):
+                chk.fail('C12/cached-sequence', f'a caching client, asked for files that differ only in the order of the duplicated parameter {a} (or in layout), returns for request {i + 1} '
+                         'a result that a fresh run of that same file does not give: the later occurrence does not govern',
+                         {'source': name, 'duplicated_parameter': a, 'values': [cur, alt], 'request_index': i, 'files_requested_in_order': texts[:i + 1], 'digests': rows})
+
+
 def run(chk: core.Check) -> int:
     clean = chk.prove(['GeoVerif.Properties.C12'])
     quick = chk.tier == 'quick'
     tokenizer_differential(chk, 1500 if quick else 20000)
     whole_runs(chk, 14 if quick else 80, 4 if quick else 10)
+    cached_sequences(chk, 4 if quick else 24)
     if (not clean or chk.breaks) and not chk.failures:
         tokenizer_differential(chk, 5000)
         whole_runs(chk, 30, 6)
